@@ -1413,6 +1413,8 @@ def generic_index(dim, prefix="q"):
 
 def Sum(bound, f, prefix="k"):
     """Σ_{k<bound} f(k) with f a Python function of the index Poly"""
+    if P(bound).as_int() == 1:
+        return P(f(ZERO))           # a one-element axis: its only index is 0
     v = bounded_var(bound, prefix)
     return mk_sum(v, P(bound), P(f(v)))
 
@@ -1523,6 +1525,35 @@ class EvalEnv:
         self.syms = dict(syms or {})
         self.funcs = dict(funcs or {})
         self.default = default  # callable(kind, name, args) for unknowns
+        self.special = {"minv": _eval_matfun, "chol_lower": _eval_matfun, "chol_upper": _eval_matfun}
+
+
+def _eval_matfun(a, env, bvs):
+    """minv / cholesky atoms: app(name, n, lam(lam(body)), i, j) -- evaluated with numpy"""
+    import numpy as np
+    name = a.args[0]
+    n = int(round(evalf(a.args[1], env, bvs)))
+    lam = a.args[2]
+    i = int(round(evalf(a.args[3], env, bvs)))
+    j = int(round(evalf(a.args[4], env, bvs)))
+    key = ("mat", name, lam.key, tuple(sorted(bvs.items())))
+    cache = env.__dict__.setdefault("_matcache", {})
+    if key not in cache:
+        outer = lam.terms[0][0][0][0]
+        M = np.zeros((n, n))
+        for r in range(n):
+            inner_p = instantiate(outer, Poly.const(r))
+            inner = inner_p.terms[0][0][0][0]
+            for c in range(n):
+                M[r, c] = evalf(instantiate(inner, Poly.const(c)), env, bvs)
+        if name == "minv":
+            R = np.linalg.inv(M)
+        else:
+            R = np.linalg.cholesky(M)
+            if name == "chol_upper":
+                R = R.T
+        cache[key] = R
+    return float(cache[key][i, j])
 
 
 def evalf(x, env, bvs=None):
@@ -1532,6 +1563,14 @@ def evalf(x, env, bvs=None):
     tot = 0.0
     for m, c in x.terms:
         t = float(c)
+        # an indicator factor guards the rest of its monomial ([c] * X is X only where c holds)
+        dead = False
+        for a, p in m:
+            if a.kind == "ind" and not _evalc(a.args[0], env, bvs):
+                dead = True
+                break
+        if dead:
+            continue
         for a, p in m:
             v = _evala(a, env, bvs)
             t *= v ** p
@@ -1566,6 +1605,11 @@ def _evala(a, env, bvs):
         raise KeyError(n)
     if k == "bv":
         return bvs[a.args[0]]
+    if k == "app" and a.args[0] in getattr(env, "special", {}):
+        return env.special[a.args[0]](a, env, bvs)
+    if k == "app" and a.args[0] in ("floordiv", "mod") and len(a.args) == 3:
+        x_, y_ = int(round(evalf(a.args[1], env, bvs))), int(round(evalf(a.args[2], env, bvs)))
+        return x_ // y_ if a.args[0] == "floordiv" else x_ % y_
     if k == "app":
         args = [evalf(x, env, bvs) for x in a.args[1:]]
         f = env.funcs.get(a.args[0])
